@@ -79,9 +79,16 @@ func bindable(port int) bool {
 	return true
 }
 
+// caseFirstGoID: goroutines with a smaller id existed before the current case started (left over from an earlier case
+// of this process) and are not attributed to it.
+var caseFirstGoID int64
+
 func udpGoroutines() []string {
 	var out []string
 	for _, g := range gstate.Snapshot() {
+		if g.ID < caseFirstGoID {
+			continue
+		}
 		if f := g.Innermost("pion/transport/v3/udp."); f != "" {
 			out = append(out, f+" ["+g.State+"]")
 		}
@@ -90,6 +97,12 @@ func udpGoroutines() []string {
 }
 
 func runOne(sc *scen, st sched.Strategy, settle bool, hit map[int]bool) (rs result) {
+	caseFirstGoID = 0
+	for _, g := range gstate.Snapshot() {
+		if g.ID >= caseFirstGoID {
+			caseFirstGoID = g.ID + 1
+		}
+	}
 	s := sched.New(st)
 	s.Settle = settle
 	s.MaxSteps = 1500
@@ -453,8 +466,26 @@ func runOne(sc *scen, st sched.Strategy, settle bool, hit map[int]bool) (rs resu
 		rs.key, rs.desc = k, d+" (second Close)"
 		return rs
 	}
-	if !bindable(port) {
-		return fail("udp:socket-not-closed", fmt.Sprintf("everything is closed (order %q + remaining) but the socket on port %d is still open in this process", rs.closeOrd, port))
+	// the last reference may be dropped by two Close calls that both saw a stale connection count and did not wait: the
+	// closer goroutine then closes the socket on its own a moment later. Only a closer that is still parked on the
+	// reference count (three samples) with the socket open means the socket will never be closed.
+	for t0 := time.Now(); !bindable(port); {
+		parked := 0
+		for k := 0; k < 3; k++ {
+			for _, g := range gstate.Snapshot() {
+				if g.Has("udp.(*ListenConfig).Listen.func1") && gstate.Blocked(g.State) && g.Has("sync.(*WaitGroup).Wait") {
+					parked++
+				}
+			}
+			time.Sleep(300 * time.Microsecond)
+		}
+		if parked == 3 && !bindable(port) {
+			return fail("udp:socket-not-closed", fmt.Sprintf("everything is closed (order %q + remaining) but the socket on port %d is still open in this process and the closer goroutine is parked on the reference count", rs.closeOrd, port))
+		}
+		if time.Since(t0) > 10*time.Second {
+			rs.desc = "inconclusive: socket neither closed nor closer parked"
+			return rs
+		}
 	}
 	if sc.Batch {
 		time.Sleep(3 * time.Millisecond) // batch ticker period
